@@ -21,6 +21,7 @@ mod c05;
 mod c06;
 mod c08;
 mod c09;
+mod mkproof_oracle;
 mod entry;
 mod wire;
 mod fixtures;
@@ -41,6 +42,13 @@ fn main() {
         "C09" => c09::run(&args),
         "C05-corpus" => c05::dump_corpus(args.rest.get(1).map(|s| s.as_str()).unwrap_or("/verif/harness/fuzz/corpus")),
         "C05-raw" => c05::raw_one(args.rest.get(1).map(|s| s.as_str()).unwrap_or(""), args.rest.get(2).map(|s| s.as_str()).unwrap_or("")),
+        "C09-corpus" => {
+            // development aid / thorough tier helper: write the seed corpus of the fuzz_mkproof target
+            let dir = std::path::PathBuf::from(args.rest.get(1).map(|s| s.as_str()).unwrap_or("/verif/harness/fuzz/corpus/fuzz_mkproof"));
+            let _ = std::fs::create_dir_all(&dir);
+            mkproof_oracle::write_corpus(&dir);
+            0
+        }
         "C08-timing" => {
             c08::timing();
             0
